@@ -417,6 +417,23 @@ func runC17(c *core.Ctx) {
 		{"data-decoded", "ok(ssv/protocol/v2/types.EventMsg.GetTimeoutData(p2))", ""},
 	})
 	c.Min("C17-R3", k, 1, "UponRoundTimeout call in OnTimeout")
+	// what makes a timeout event of ANOTHER height harmless is that instances of other heights are
+	// force-stopped when a new one starts: the stop runs after the controller height moved to the new
+	// height (it exempts the instance at c.Height), and stops exactly the instances of other heights
+	sni := ctrlPkg + ".(*Controller).StartNewInstance"
+	k = atCalls(c, "C17-R3", sni, cN+"Controller.forceStopAllInstanceExceptCurrent", []Req{
+		{"height-moved-first", "stored(p0.Height, p2)", "the exempted 'current' instance must be the new one: stopping before the height moves leaves the previous instance running"},
+	})
+	c.Min("C17-R3", k, 1, "force-stop in StartNewInstance")
+	atCalls(c, "C17-R3", ctrlPkg+".(*Controller).forceStopAllInstanceExceptCurrent", iN+"Instance.ForceStop", []Req{
+		{"other-heights-only", "ne(p0.Height, p0.StoredInstances[_].State.Height)", "every instance of another height is stopped, the current one is not"},
+	})
+	ensures(c, "C17-R3", instPkg+".(*Instance).UponRoundTimeout", "err=nil", []Req{
+		{"refused-when-stopped", "T(" + iN + "Instance.CanProcessMessages(p0))", "a force-stopped instance ignores timeouts"},
+	})
+	ensures(c, "C17-R3", instPkg+".(*Instance).CanProcessMessages", "ret=true", []Req{
+		{"not-force-stopped", "F(p0.forceStop)", ""},
+	})
 	vo := ssv + "protocol/v2/ssv/validator.(*Validator).onTimeout"
 	if _, err := c.P.Func(vo); err == nil {
 		k = atCalls(c, "C17-R3", vo, "ssv/protocol/v2/ssv/queue.Queue.TryPush", []Req{
